@@ -172,6 +172,13 @@ theorem dispatch_requires_valid_content_length (s : Sock) (h : Dic) (r : Sock ×
   obtain ⟨n, h1, h2, _⟩ := validLength_spec _ ((readBody_inv s h r hr hh).2.2 hcl)
   exact ⟨n, h1, h2⟩
 
+/-- a request is dispatched only if it has no Transfer-Encoding or its last transfer coding is chunked
+    (`gzip`, `chunked, gzip`, `xchunked`: no determinable length, the connection is closed — fix 4dff910) -/
+theorem dispatch_requires_framed_transfer_encoding (s : Sock) (r : Req) (s' : Sock)
+    (h : AslModel.HttpParse.read s = .ok (r, s')) (hd : Healthy s') (hm : r.method ≠ []) :
+    hasHeader r.headers sTransferEncoding = false ∨ isChunked (header r.headers sTransferEncoding) = true :=
+  read_transfer_encoding s r s' h hd hm
+
 /-! ## the decoded path is the path that was sent, and the file opened lies under the root -/
 
 /-- `%xy` with hexadecimal digits in either letter case is the byte `16·x + y` -/
@@ -343,7 +350,7 @@ example : WellFormed ⟨[80, 79, 83, 84], [47, 97], [72, 84, 84, 80, 47, 49, 46,
   line_len := by decide
   headers_ok := by unfold HeadersOk NameOk ValueOk; decide
   no_expect := by decide
-  not_chunked := by decide
+  no_te := by decide
   framing := Or.inr (by decide)
 
 -- the same request is dispatched and keeps the connection (hypothesis of `serve_faithful`)
@@ -407,5 +414,10 @@ example : (readBody { inp := [49, 48, 48, 48, 48, 48, 48, 48, 53, 13, 10, 104, 1
     (fun r => (r.2, r.1.closed)) = some ([], true) := by decide
 example : (readBody { inp := [53, 13, 10, 104, 101, 108, 108, 111, 122, 122, 48, 13, 10, 13, 10] } [(sTransferEncoding, sChunked)]).toOption.map
     (fun r => (r.2, r.1.closed)) = some ([104, 101, 108, 108, 111], true) := by decide
+
+-- "Transfer-Encoding: gzip" + a smuggled request as body: nothing is dispatched (4dff910)
+example : (serve { inp := [80, 79, 83, 84, 32, 47, 120, 32, 72, 84, 84, 80, 47, 49, 46, 49, 13, 10, 84, 114, 97, 110, 115, 102, 101, 114, 45, 69, 110,
+    99, 111, 100, 105, 110, 103, 58, 32, 103, 122, 105, 112, 13, 10, 13, 10, 71, 69, 84, 32, 47, 115, 32, 72, 84, 84, 80, 47, 49, 46, 49, 13, 10, 13, 10] }).toOption.map
+    (fun r => (r.2.length, r.1.closed)) = some (0, true) := by decide
 
 end C09
